@@ -75,7 +75,7 @@ Definition by_namespace_prefix (order : list pool) : list (N * list N) :=
 
 Definition mini_pool (n : N) (nss : list N) : pool :=
   {| p_name := n; p_cidrs := []; p_per_addr := []; p_avoid := false; p_auto := true; p_bgp := [];
-     p_l2 := []; p_alloc := Some {| sa_prio := 0; sa_nss := nss; sa_nsel := 0 |} |}.
+     p_l2 := []; p_alloc := Some {| sa_prio := 0; sa_nss := nss; sa_sels := [] |} |}.
 
 Lemma by_namespace_prefix_refuted :
   exists o o', Permutation o o' /\ by_namespace_prefix o <> by_namespace_prefix o'.
